@@ -7,6 +7,7 @@ import (
 	"fmt"
 	"os"
 	"path/filepath"
+	"strings"
 	"sync"
 	"testing"
 	"time"
@@ -217,16 +218,35 @@ func clearInflightC06() {
 type c06DupCase struct {
 	Layer  string `json:"layer"`  // sign1, untagged, sign-body, signer, countersignature, nested-countersignature, key, protected, unprotected
 	Bucket string `json:"bucket"` // P, U
-	Label  string `json:"label"`  // int, negint, text, empty-text, long-text, text-digits
+	Label  string `json:"label"`  // int, negint, text, empty-text, long-text, text-digits, utf8:<k>:<r> (k ASCII letters, then one character of r bytes)
+	// Crit: instead of repeating the label, the protected map lists it in crit without carrying it (another
+	// refusal whose message quotes the label)
+	Crit bool `json:"crit,omitempty"`
+}
+
+func c06Label(name string) []byte {
+	var k, r int
+	if n, _ := fmt.Sscanf(name, "utf8:%d:%d", &k, &r); n == 2 {
+		txt := bytes.Repeat([]byte{'a'}, k)
+		txt = append(txt, map[int]string{2: "\u00e9", 3: "\u20ac", 4: "\U0001F600"}[r]...)
+		return rc.Encode(rc.Text(string(txt)), nil)
+	}
+	return nil
 }
 
 func checkC06Dup(c c06DupCase) error {
 	lab := map[string][]byte{"int": {0x18, 0x63}, "negint": {0x38, 0x63}, "text": {0x61, 'a'}, "empty-text": {0x60}, "text-digits": {0x61, '4'},
 		"long-text": append([]byte{0x78, 0x20}, bytes.Repeat([]byte{'l'}, 32)...)}[c.Label]
+	if lab == nil {
+		lab = c06Label(c.Label)
+	}
 	m := append([]byte{0xa2}, lab...)
 	m = append(m, 0x01)
 	m = append(m, lab...)
 	m = append(m, 0x02)
+	if c.Crit {
+		m = append([]byte{0xa2, 0x01, 0x26, 0x02, 0x81}, lab...)
+	}
 	empty := []byte{0xa0}
 	prot := func(b []byte) []byte { return rc.Encode(rc.Bytes(b), nil) }
 	p, u := []byte{0x40}, empty
@@ -282,11 +302,21 @@ func checkC06Dup(c c06DupCase) error {
 		_, err = decodeAny(kind, w)
 	}
 	if err == nil {
+		if c.Crit {
+			return finding("accepted-crit-of-absent-label", "%+v: a protected header whose crit lists a label it does not carry is accepted\n%x", c, w)
+		}
 		return finding("accepted-duplicate-label", "%+v: a map with a repeated label is accepted\n%x", c, w)
 	}
 	_ = err.Error()
 	_ = fmt.Sprintf("%v %+v %q", err, err, err)
-	stats.Class("duplicate-label-refused/" + c.Label)
+	if strings.HasPrefix(c.Label, "utf8:") {
+		stats.Class("duplicate-label-refused/text-ending-in-a-multi-byte-character")
+	} else {
+		stats.Class("duplicate-label-refused/" + c.Label)
+	}
+	if c.Crit {
+		stats.Class("crit-of-absent-label-refused")
+	}
 	return nil
 }
 
@@ -300,12 +330,25 @@ func TestC06_DuplicateLabels(t *testing.T) {
 			if (layer == "protected" && bucket == "U") || (layer == "unprotected" && bucket == "P") || (layer == "key" && bucket == "U") {
 				continue
 			}
-			for _, label := range []string{"int", "negint", "text", "empty-text", "long-text", "text-digits"} {
-				c := c06DupCase{Layer: layer, Bucket: bucket, Label: label}
-				n++
-				stats.Eval()
-				stats.NTBytes([]byte(fmt.Sprint(c)))
-				judge(t, "c06dup", c, checkC06Dup)
+			labels := []string{"int", "negint", "text", "empty-text", "long-text", "text-digits"}
+			for k := 20; k <= 70; k++ {
+				// text labels whose last character is 2, 3 or 4 bytes long and starts at every offset around the
+				// lengths at which a message might abbreviate what it quotes
+				for r := 2; r <= 4; r++ {
+					labels = append(labels, fmt.Sprintf("utf8:%d:%d", k, r))
+				}
+			}
+			for _, label := range labels {
+				for _, crit := range []bool{false, true} {
+					if crit && (bucket != "P" || layer == "key") {
+						continue
+					}
+					c := c06DupCase{Layer: layer, Bucket: bucket, Label: label, Crit: crit}
+					n++
+					stats.Eval()
+					stats.NTBytes([]byte(fmt.Sprint(c)))
+					judge(t, "c06dup", c, checkC06Dup)
+				}
 			}
 		}
 	}
